@@ -171,13 +171,14 @@ PROPS = {
                        "number. Checks: complete succeeds only if the selection is valid (existing, strictly ascending, current ETags, all but the "
                        "last >= 5 MiB); then GET = concatenation (streamed MD5), ETag = md5(md5s)-N, metadata of the initiation; otherwise the "
                        "key reads exactly as before; part ETag = MD5 of the exact source interval for copies; listings equal the model; parts / "
-                       "uploads never show as objects; closed uploads answer NoSuchUpload; open uploads keep exactly their parts. Scripted uploads number their parts 1..5 or with mixed digit counts (2, 10, 11, 100 ...), list their parts in pages from markers, and ListMultipartUploads is followed in pages of max-uploads through both next markers. CompleteMultipartUpload may state x-amz-mp-object-size (right, zero, wrong, negative). Requests under an upload id that names no upload of the key (empty, well-formed but never handed out, the id of an upload on another key) - part, part copy, ListParts, completion, abort - must be refused and change nothing."),
+                       "uploads never show as objects; closed uploads answer NoSuchUpload; open uploads keep exactly their parts. Scripted uploads number their parts 1..5 or with mixed digit counts (2, 10, 11, 100 ...), list their parts in pages from markers, and ListMultipartUploads is followed in pages of max-uploads through both next markers. CompleteMultipartUpload may state x-amz-mp-object-size (right, zero, wrong, negative). Requests under an upload id that names no upload of the key (empty, well-formed but never handed out, the id of an upload on another key) - part, part copy, ListParts, completion, abort - must be refused and change nothing. (R) uploads of one key under a generated schedule: an initiation, an abort or completion of another upload of the key, a part, listings - afterwards every acknowledged unfinished upload is listed, takes a part and lists it, a finished one is gone. Part copies also read versions of a key in a versioned bucket (older, current, unknown id)."),
         "level_note": "a valid completion that is refused is not judged (the statement is 'only if'); open-ended copy ranges are accepted when honoured exactly. In-process engine, xattr or sidecar, both temp-file strategies. Exploration only.",
         "rule": ("case = (config, ops). Non-trivial: an upload with >= 2 parts is completed, or a completion uses a re-uploaded part, or two uploads are open "
                  "for the same key; distinct by the full case."),
         "assumptions": ["in-process engine replicates runGateway wiring", "5 MiB parts are real (the minimum part size is a constant)"],
         "jobs": [
             {"run": "TestC08A", "quick": 640, "thorough": 80000, "shards_quick": 16, "shards_thorough": 16},
+            {"run": "TestC08R", "quick": 4000, "thorough": 200000, "shards_quick": 4, "shards_thorough": 16},
         ],
     },
     "C01": {
